@@ -104,6 +104,7 @@ class Collector:
         return r1       # abstraction-level model stands (complete class: independent atoms)
 
     def lia(self, oid, hyps, goal, replay=None, sample=False):
+        hyps = list(hyps) + self._rcp_axioms(list(hyps) + [goal])
         r = prove.prove_lia(hyps, goal)
         d = self._add(oid, 'vc', r)
         if sample:
@@ -115,6 +116,24 @@ class Collector:
             except Exception as e:
                 d['replay'] = dict(reproduced=False, error=f'{type(e).__name__}: {e}')
         return d
+
+    def _rcp_axioms(self, terms):
+        """b * rcp(b) == 1 for every reciprocal occurring in the terms (divisors are non-zero: precondition of the division)"""
+        from .sx import RCP
+        seen, out = {}, []
+
+        def walk(e):
+            if e.get_id() in seen:
+                return
+            seen[e.get_id()] = e
+            if z3.is_app(e) and e.decl().eq(RCP):
+                out.append(e.arg(0) * e == 1)
+            for c in e.children():
+                walk(c)
+        for t in terms:
+            if z3.is_expr(t):
+                walk(t)
+        return out
 
     def canary_eq(self, oid, hyps, lhs, rhs, side=()):
         """deliberately wrong obligation: must NOT be provable"""
